@@ -454,6 +454,14 @@ func runC07(c isoCase, st *hx.Stats) error {
 // bsdtarAgrees: a second, unrelated reader (libarchive, when installed) must list exactly the source tree.
 func bsdtarAgrees(img []byte, tree *hx.Node, st *hx.Stats) error {
 	bin, err := exec.LookPath("bsdtar")
+	for _, cand := range []string{"/usr/bin/bsdtar", "/usr/local/bin/bsdtar", "/root/miniconda/bin/bsdtar", "/opt/conda/bin/bsdtar"} {
+		if err == nil {
+			break
+		}
+		if _, serr := os.Stat(cand); serr == nil {
+			bin, err = cand, nil
+		}
+	}
 	if err != nil || img == nil || len(img) > 48<<20 {
 		return nil
 	}
